@@ -10,6 +10,7 @@ import CdnsVerif.Driver.Fs
 import CdnsVerif.Driver.Mrg
 import CdnsVerif.Driver.Sch
 import CdnsVerif.Driver.Blk
+import CdnsVerif.Driver.Bld
 open CdnsVerif.Driver
 
 def dispatch (line : String) : String :=
@@ -27,6 +28,7 @@ def dispatch (line : String) : String :=
   | "sch" :: rest => Sch.handle rest
   | "blk" :: rest => Blk.handle rest
   | "blkc" :: rest => Blk.handleCuts rest
+  | "bld" :: rest => Bld.handle rest
   | _ => "bad-request"
 
 partial def loop (h : IO.FS.Stream) (out : IO.FS.Stream) : IO Unit := do
